@@ -470,6 +470,8 @@ def run(ctx, prefix="C03", set_explanation=True):
         whole = s == ("field", ("deref", ("param", 1)), players_field[0]) and not any(
             c.rsplit("::", 1)[-1] in ("skip", "take", "rev", "filter", "step_by") for c in chw)
         acc = prw.local(0)
+        while acc[0] == "cast":        # `.. as u8` of a wider counter
+            acc = acc[2]
         alts = P.alts(acc)
         inc = [a for a in alts if a[0] == "bin" and a[1] == "Add" and P.const_int(a[3]) == 1]
         ini = [a for a in alts if P.const_int(a) == 0]
